@@ -491,6 +491,9 @@ func (c *Compiler) isFeatureValid(m parse.Node, n parse.Node, featTree map[strin
 		return false
 	}
 	featTree[featName] = true
+	// Only the features on the chain being followed are a cycle: a feature
+	// reached along two different paths is not.
+	defer delete(featTree, featName)
 
 	// Verify each feature that this feature references via an if-feature
 	for _, ifFeat := range n.ChildrenByType(parse.NodeIfFeature) {
